@@ -13,30 +13,30 @@ ID = 'C17'
 LEAN_MODULES = ['Pfst.Props.C17']
 THEOREMS = [
     'Pfst.C17.match_self', 'Pfst.C17.match_one_leaf', 'Pfst.C17.match_same_structure',
-    'Pfst.C17.leaf_table_ok', 'Pfst.C17.leaf_table_nonempty', 'Pfst.C17.prefilter_sound_partial', 'Pfst.C17.prefilter_false',
-    'Pfst.C17.search_eq_filter', 'Pfst.C17.search_eq_filter_noMnot',
-    'Pfst.C17.list_regex_partial', 'Pfst.C17.list_regex_false_backoff', 'Pfst.C17.list_regex_false_reentry',
-    'Pfst.C17.list_regex_false_static',
+    'Pfst.C17.leaf_table_ok', 'Pfst.C17.leaf_table_nonempty', 'Pfst.C17.prefilter_sound',
+    'Pfst.C17.search_eq_filter', 'Pfst.C17.search_eq_filter_all',
+    'Pfst.C17.list_regex_partial', 'Pfst.C17.list_regex_false_reentry',
 ]
 RULE = ('LIST: pattern sequences over {a, b, ..., M(t=...), M(t=a), MTAG(t)} x quantifier {*, +, ?, {1,2}} x greedy/non-greedy x '
         '(single | sublist body, 11 sublist bodies incl. inner quantifiers): all sequences of length <= 2 (thorough; '
         'sampled in quick), sampled length 3, plus random wider patterns (nested sublists, tagged quantifiers, static '
         'tags, {m,n} up to 3, three tags) — each against ALL 364 element sequences over {a,b,c} of length <= 5, as FST '
         'and as pure AST targets; real result (accept/reject + every capture as index ranges) compared with the Lean '
-        'model (must agree, defects included) and with re.fullmatch on the letter encoding (the property). '
+        'model (must agree, the known re-entry defect included) and with re.fullmatch on the letter encoding (the property). '
         'STRUCTURE: corpus trees vs the pattern built from their own AST, vs every kind of single-leaf mutant, '
         'formatted vs re-layout vs pure AST, repeated/shuffled call orders. SEARCH: list(search(p)) vs filtered walk '
         'for every combinator over base patterns, compared with the model and with the walk oracle. '
         'distinct = distinct (pattern, target) pairs; non-trivial = the match succeeds or the pattern has a quantifier')
 TRUSTED = [
-    'modelled: _match__inside_list, _match__inside_list_quantifier (phases, static-tag appends, greedy back-off, '
+    'modelled: _match__inside_list, _match__inside_list_quantifier (phases, static-tag append, greedy back-off to the '
+    'saved start index of the discarded iteration, '
     'non-greedy extension, sublist bodies, pat_tag lists), _MatchState tag stack as a flat environment (last binding '
     'wins), M/MNOT/MOR/MAND/MMAYBE/MTAG/MTYPES._match on generic trees, _match_node/_match_type/_match_list with AST '
     'patterns, the _leaf_asts combinators, search(nested=True,on=enter) as filtered pre-order walk',
     'not modelled: _match_str/_match_re_Pattern on source text (excluded by the property), _match_primitive type rules '
     '(covered by the sweep on real constants only), FSTView targets (Dict/arguments/Compare multi-node items), MRE, '
-    'MCB, search(nested=False, on=leave/both, send()), sublist bodies that can match the empty sequence with a '
-    'bounded quantifier (the real code raises IndexError there: reported with F2)',
+    'MCB, search(nested=False, on=leave/both, send()); sublist bodies that can match the empty sequence (bounded '
+    'quantifier) are only checked on four fixed witnesses against re (an empty slice carries no index to compare)',
     'expr_context instances inside AST patterns are serialised as the type pattern expr_context (ctx=False)',
     'the `re` oracle is used only where the pattern has a faithful rendering: every tag captured at one place, '
     'references after their capture, no reference across a tagged quantifier',
@@ -48,14 +48,14 @@ ASSUMPTIONS = [
 ]
 LEVEL_TEXT = ('Lean 4 theorems about an executable model of the list/quantifier matcher, the structural matcher and the '
               'search pre-filter: a tree matches its own pattern and no single-leaf variant; the pre-filter is sound for '
-              'patterns whose MNOTs cover only type-exact patterns (and unsound otherwise: witness); search equals '
-              'the filtered walk under that soundness; for quantifiers over single-element patterns without static '
-              'tags the matcher as written returns exactly the head of the ordered list-of-successes regular-expression '
-              'semantics (greedy, non-greedy, min/max, tags, back-references); three decided witnesses where it does '
-              'not (sublist back-off, sublist re-entry, static tags). Tied to /repo by extraction of the kind tables and '
-              'by running model and implementation on the same inputs each run.')
-LEVEL_NOTE = ('Theorems are about the model; the tie to the code is differential. Partial: list_regex is proved for '
-              'single-element quantifier bodies without static tags, the sublist case is false on the pinned tree.')
+              'every pattern combinator (MNOT included) and search equals the filtered walk; for every pattern sequence '
+              'in which no quantified sublist contains a quantifier the matcher as written returns exactly the head of '
+              'the ordered list-of-successes regular-expression semantics (greedy, non-greedy, min/max, sublist bodies, '
+              'pattern tags, static tags, back-references); one decided witness where it does not (re-entry into a '
+              'finished sublist iteration, C17-F3). Tied to /repo by extraction of the kind tables and by running model '
+              'and implementation on the same inputs each run.')
+LEVEL_NOTE = ('Theorems are about the model; the tie to the code is differential. Partial: list_regex is false for a '
+              'quantifier inside a quantified sublist (known finding C17-F3), proved for every other shape.')
 TECHNIQUE = 'Lean 4 proof (structural induction, decide) + table extraction + model-implementation correspondence + re oracle'
 
 MAXLEN = 5
@@ -69,9 +69,9 @@ def extract(ctx):
     classes, num, leaf, inst, allk = L.kind_tables()
     n = len(classes)
     unsound = [k for k in range(n) if not set(inst[k]) <= set(leaf[k])]
-    # leaf kinds at which the tables are not what the pre-filter needs: tk not in AST2ASTSLEAF[tk], or an instance of k
-    # that AST2ASTSLEAF[k] does not list
-    bad = [tk for tk in allk if tk not in leaf[tk] or any(tk in inst[k] and tk not in leaf[k] for k in range(n))]
+    # leaf kinds at which the tables are not what the pre-filter needs: tk not in AST2ASTSLEAF[tk], or AST2ASTSLEAF[k]
+    # lists tk without tk being an instance of k (or the other way round)
+    bad = [tk for tk in allk if tk not in leaf[tk] or any((tk in inst[k]) != (tk in leaf[k]) for k in range(n))]
     named = ['AST', 'Name', 'Constant', 'Load', 'Store', 'expr', 'stmt', 'mod', 'List', 'BinOp', 'Add', 'Call']
 
     def lst(l):
@@ -90,7 +90,7 @@ def extract(ctx):
            f'def listKind : Nat := {n + 1}\n'
            '/-- kinds whose `AST2ASTSLEAF` entry misses a leaf class that `isinstance` accepts -/\n'
            f'def unsoundKinds : List Nat := {lst(unsound)}\n'
-           '/-- leaf kinds `tk` that some `AST2ASTSLEAF[k]` misses although `issubclass(tk, k)` -/\n'
+           '/-- leaf kinds `tk` for which some `AST2ASTSLEAF[k]` disagrees with `issubclass(tk, k)` -/\n'
            f'def badTargets : List Nat := {lst(bad)}\n'
            + ''.join(f'def k{nm} : Nat := {num[getattr(ast, nm)]}\n' for nm in named) + '\n'
            'def kinds : Kinds :=\n  { leafOf := fun k => leafTable.getD k [], inst := fun k => instTable.getD k [], all := all,\n'
@@ -167,10 +167,10 @@ def _gen_list_patterns(ctx):
 
 _A, _B, _C = ['e', ['lit', 0]], ['e', ['lit', 1]], ['e', ['lit', 2]]
 _FIXED_WITNESSES = [
-    [['ql', L.q(0, None), [_A, _B]], _B, _C],                                    # F2 accept: (?:ab)*bc on abc
-    [['ql', L.q(0, None, True, 1), [_A, _B]], _A, _B],                           # F2 capture: t=[] on abab
+    [['ql', L.q(0, None), [_A, _B]], _B, _C],                                    # (fixed F2) (?:ab)*bc on abc
+    [['ql', L.q(0, None, True, 1), [_A, _B]], _A, _B],                           # (fixed F2) capture on abab
     [['ql', L.q(1, 2), [_A, ['qs', L.q(0, None), ['lit', 1]]]], _B],             # F3: (?:ab*){1,2}b on abb
-    [['qs', L.q(0, 2, True, None, [(5, 1)]), ['cap', 0, ['any']]], _B, _C],      # F4: static tags
+    [['qs', L.q(0, 2, True, None, [(5, 1)]), ['cap', 0, ['any']]], _B, _C],      # (fixed F4) static tags
     [['e', ['cap', 0, ['any']]], ['qs', L.q(0, None, False), ['any']], ['qs', L.q(1, 2, True, 1), ['ref', 0]], _B],
 ]
 
@@ -306,7 +306,7 @@ def _sweep_list(ctx):
     ctx.notes['list_patterns_without_re_rendering'] = n_skipped
     ctx.notes['list_failures_by_signature'] = reported
     ctx.count(None, n=n_oracle)
-    # the crash variant of the back-off defect: bounded quantifier over a sublist that can match the empty sequence
+    # bounded quantifier over a sublist that can match the empty sequence (raised IndexError before the back-off repair)
     from fst import FST
     for ps, xs in _NULLABLE_WITNESSES:
         pat = L.build_list_pattern(ps)
